@@ -174,6 +174,10 @@ def main(argv=None):
     tier = opts["tier"]
     mod = load_module(pid)
     t0 = time.time()
+    # per-module environment (e.g. Numba thread count), applied before sketchnu/numba are imported
+    for k, v in getattr(mod, "ENV", {}).get(tier, {}).items():
+        if os.environ.get("VERIF_KEEP_ENV") != "1":
+            os.environ[k] = v
 
     # ---- replay of one recorded witness ---------------------------------------------------
     if opts["replay"]:
